@@ -503,7 +503,7 @@ def run(rep, tier):
         raise AnalysisBroken("C01.R13 examined only %d (scheduler, queue member) pairs" % n13)
 
     # ---- R12: the containers the work queues are built on (the same rules decide C17)
-    import_rules(rep, tier, "C17", ("C17.R4", "C17.R5"), "C01.R12",
+    import_rules(rep, tier, "C17", ("C17.R4", "C17.R5", "C17.R7"), "C01.R12",
                  "K8/K6 (shared with C17.R4/R5): the lock-free deque behind the LIFO work queues (tag change on every CAS, relinking only when stable, "
                  "push followed by stabilize) and the queue back-ends (one container operation per push/pop, LIFO/FIFO/steal ends) - a task pushed while "
                  "another worker pops is neither lost nor handed out twice")
